@@ -137,6 +137,9 @@ def run_in(spec, res, d, h):
             res.note('disk-source-unavailable:%s' % type(e).__name__)
             f = build(spec['file'])
     bad = snapshot.wellformed(f)
+    if ioapi and 'TSTEP' in f.dimensions and \
+            not f.dimensions['TSTEP'].isunlimited():
+        bad.append('IOAPI file: TSTEP is not unlimited')
     res.hook('constructor.eval')
     res.ev(digest(['ctor', spec['file']]), len(list(f.variables.keys())) > 0,
            'ctor')
